@@ -19,3 +19,6 @@ Definition run_block_q (nin : nat) (ss ssi : list Qc) (paths : list (list Qc)) (
   (map (fun e => qout (qeval_ss (qlookup ss) e)) outs,
    map (fun e => map (fun x => option_map (map (fun kx => (fst kx, qout (snd kx)))) (qjac_entry (qlookup ss) x e)) (seq 0 nin)) outs,
    map (fun e => map (fun t => qout (qeval_td (Some T) (qlookup ss) (qlookup ssi) (qpath_env paths ss) e (Z.of_nat t))) (seq 0 (Z.to_nat T))) outs).
+
+(** the derivative AccumulatedDerivative.apply uses for a generic function: the symmetric difference quotient with step h (1e-5 by default) *)
+Definition symq (h : Qc) (f : Qc -> Qc) : Qc -> Qc := fun x => Qcdiv (Qcminus (f (Qcplus x h)) (f (Qcminus x h))) (Qcmult (Qcplus q1 q1) h).
